@@ -158,33 +158,46 @@ func verif14AnyMessage(payloadHeader *p2p.PiecePayloadMessage) *p2p.Message {
 	return m
 }
 
-// VerifConnReadMessage: any message whose payload header, when the type says
-// "piece payload", is present with a small non-negative length. readMessage
-// returns it (with exactly Length payload bytes) or fails on a short socket.
+// VerifConnReadMessage: any message: symbolic type, every sub-message nil or
+// present, the piece-payload header absent or present with ANY int32 length,
+// 0..3 payload bytes on the socket. readMessage fails exactly when a payload
+// message has no header, a negative length, a length beyond the torrent's
+// maximum piece length (2) or beyond what the socket carries; otherwise it
+// returns the message with exactly Length payload bytes.
 func VerifConnReadMessage() {
 	var hdr *p2p.PiecePayloadMessage
 	if verif.Bool("has_payload_header") {
 		hdr = &p2p.PiecePayloadMessage{Index: verif.Int32("index"), Offset: verif.Int32("offset"), Length: verif.Int32("payload_length")}
-		verif.Assume(verif.And(hdr.Length >= 0, hdr.Length <= 3))
 	}
 	msg := verif14AnyMessage(hdr)
-	verif.Assume(verif.Or(msg.Type != p2p.Message_PIECE_PAYLOAD, hdr != nil))
 	avail := verif.Len("socket_payload_bytes", 0, 3)
 	payload := verif.Bytes("payload", avail)
 	sock := &verif14Sock{in: verif14Stage(msg, payload)}
 	c := verif14Conn(sock)
+	maxLen := verif14Info().MaxPieceLength()
 	verif14Guard(func() {
 		got, err := c.readMessage()
+		isPayload := msg.Type == p2p.Message_PIECE_PAYLOAD
+		bad := false
+		if isPayload {
+			bad = hdr == nil
+			if hdr != nil {
+				bad = verif.Or(hdr.Length < 0, int64(hdr.Length) > maxLen, int(hdr.Length) > avail)
+			}
+		}
+		verif.Cover("payload-without-header", isPayload && hdr == nil)
+		if hdr != nil {
+			verif.Cover("negative-length", verif.And(isPayload, hdr.Length < 0))
+			verif.Cover("oversized-length", verif.And(isPayload, int64(hdr.Length) > maxLen))
+		}
 		if err != nil {
-			verif.Reach("short-socket-rejected")
-			// a payload message fails only on a short socket or when the announced
-			// length exceeds the torrent's maximum piece length
-			verif.Assert("error-only-on-short-socket-or-oversized-payload", msg.Type == p2p.Message_PIECE_PAYLOAD &&
-				(int(hdr.Length) > avail || int64(hdr.Length) > verif14Info().MaxPieceLength()))
+			verif.Reach("rejected")
+			verif.Assert("error-only-for-malformed-or-short-payload", bad)
 			return
 		}
+		verif.Assert("malformed-or-short-payload-rejected", !bad)
 		verif.Assert("type-preserved", got.Message.Type == msg.Type)
-		if msg.Type == p2p.Message_PIECE_PAYLOAD {
+		if isPayload {
 			verif.Reach("payload-read")
 			verif.Assert("payload-present", got.Payload != nil)
 			verif.Assert("payload-has-announced-length", got.Payload.Length() == int(hdr.Length))
@@ -201,7 +214,8 @@ func VerifConnReadMessage() {
 
 // VerifConnFindingPayloadHeader: a piece-payload message whose header is
 // missing, or whose length is negative or larger than any message may be.
-// Must be rejected with an error. Fires on the current tree (FINDINGS.md).
+// Must be rejected with an error. Regression check for FINDINGS.md F1 (fixed
+// upstream by c045f9a).
 func VerifConnFindingPayloadHeader() {
 	var hdr *p2p.PiecePayloadMessage
 	if verif.Bool("has_payload_header") {
@@ -265,18 +279,18 @@ func verif14BitLength(b []byte) uint64 {
 }
 
 // VerifHandshakeAccept: handshake with symbolic identifiers and symbolic
-// bitfield bytes whose announced bit length is at most 256; also one remote
+// bitfield bytes with any announced bit length (except 0); also one remote
 // bitfield entry. Accept returns an error or a pending conn whose bitfields
 // are no longer than the bytes that carried them.
 func VerifHandshakeAccept() {
 	verif.Note("bitfields announcing 0 bits are cut: encoding/binary.Read falls back to reflection for an empty slice")
 	n := []int{0, 8, 16, 17, 7, 15, 24}[verif.Choice("bitfield_bytes", verif.Bound("bitfield_len_classes", 4, 7))]
 	bb := verif.Bytes("bitfield", n)
-	verif.Assume(verif.And(verif.Or(n < 8, verif14BitLength(bb) >= 1), verif14BitLength(bb) <= 256))
+	verif.Assume(verif.Or(n < 8, verif14BitLength(bb) >= 1)) // any announced bit length except 0
 	var remote map[string][]byte
 	if verif.Bool("has_remote") {
 		rb := verif.Bytes("remote_bitfield", 16)
-		verif.Assume(verif.And(verif14BitLength(rb) >= 1, verif14BitLength(rb) <= 256))
+		verif.Assume(verif14BitLength(rb) >= 1)
 		remote = map[string][]byte{verif14Hex40: rb}
 	}
 	msg := verif14Handshake(bb, remote)
@@ -299,8 +313,8 @@ func VerifHandshakeAccept() {
 
 // VerifHandshakeFindingBitfieldLength: the announced bit length of the
 // bitfield is any 64-bit number (kept <= 2^30 so that the native replay is
-// harmless). Fires on the current tree (FINDINGS.md): the length is trusted
-// for an allocation before any byte of the set is read.
+// harmless). Regression check for FINDINGS.md F2 (fixed upstream by 0e30b15):
+// the length used to be trusted for an allocation before any byte was read.
 func VerifHandshakeFindingBitfieldLength() {
 	bb := verif.Bytes("bitfield", 16)
 	l := verif14BitLength(bb)
